@@ -14,7 +14,6 @@ quantity after `Scalar(1.0, 'lbmole')` — so it is proved in the `_partial` for
 none of whose unit symbols is itself a legacy spelling" (true of every shipped database).
 -/
 import Barril.Proofs.RegCacheLemmas
-import Barril.Props.C14
 
 namespace Barril.Reg
 open Barril
@@ -67,13 +66,13 @@ theorem cstep_preserves_Inv {s : CState} (h : Inv lg s) {op : COp} (hc : opClean
     exact ⟨by rw [r]; exact hr, i, by rw [r]; exact hn⟩
   | reg op =>
     simp only [cstep]
-    have hr' := step_preserves_RegInv lg hr op
+    have hr' := step_inv lg hr op
     have hn' := step_noLegacy lg hr hn (op := op) hc
     cases ho : (step lg s.reg op).2 with
     | ok o => exact ⟨hr', sinv_fresh lg _, hn'⟩
     | error e =>
       have : (step lg s.reg op).1 = s.reg :=
-        rejected_step_id lg hr (show step lg s.reg op = ((step lg s.reg op).1, .error e) by rw [← ho])
+        rejected_id lg hr (show step lg s.reg op = ((step lg s.reg op).1, .error e) by rw [← ho])
       simp only
       rw [this]
       exact ⟨hr, hs, hn⟩
